@@ -276,6 +276,21 @@ def run(tier):
                          files={"s.l": v["spec"], "s_tables.h": v["tables"]})
         if len(ck.samples) < 12 and ran % 40 == 1:
             ck.sample({"point": tag, "executions": sm["executions"], "tokens": sm["tokens"]})
+    # serialized tables in a file that holds several scanners' sets (manual, "Serialized Tables": cat a.tables b.tables > all.tables):
+    # each scanner must behave as with in-code tables wherever its set stands in the file (round-4 seed C02-r4m3)
+    from . import c15
+    concat = 0
+    for cjob, r in pmap(c15.concat_scenario, [(tb, api) for tb in (("-Cem", "-Cfe", "-CF") if quick else ("-Cem", "-Ce", "-C", "-Cf", "-Cfe", "-CF", "-CFe"))
+                                              for api in ("NR", "R")], check=ck):
+        if "worker_exception" in r or "build_error" in r:
+            ck.broken.append("concatenated-tables scenario %s failed to build: %s" % (cjob, str(r.get("worker_exception") or r.get("build_error"))[:300]))
+            continue
+        concat += r["counts"].get("concat_scans", 0)
+        for kind, what in r["viol"]:
+            ck.violation("C02:tables-file-concatenated:%s:%s/%s" % (kind, cjob[0], cjob[1]),
+                         "scanner reading its tables from a file of several sets (%s %s): %s" % (cjob[0], cjob[1], what))
+    ck.cov["concatenated_tables_scans"] = concat
+    ck.guard(concat > 100, "too few scans with concatenated tables files: %d" % concat)
     flex = ck.flex()
     for what, spec, fargs in REFUSALS:
         r = refusal_probe((flex.exe, spec, fargs))
